@@ -655,9 +655,10 @@ func (c *Ctx) CG() *CallGraph {
 		return c.cg
 	}
 	g := cha.CallGraph(c.Prog)
-	if c.Tier == "thorough" {
-		g = vta.CallGraph(ssautil.AllFunctions(c.Prog), g)
-	}
+	// VTA in every tier: CHA alone resolves calls of function values to every address-taken
+	// function of that signature, which drags cmd/, cli/ and statistics code into "consensus
+	// reachable" code (+3 s)
+	g = vta.CallGraph(ssautil.AllFunctions(c.Prog), g)
 	cg := &CallGraph{G: g, Edges: map[*ssa.Function][]*ssa.Function{}}
 	for fn, n := range g.Nodes {
 		if fn == nil || !c.InRepo(fn) {
